@@ -138,6 +138,8 @@ def run_scenario(sc, peer_factory=None, inv_factory=None, quiesce=True) -> Run:
     elif sc.get("by_reg") is not None:
         from .peers import RegScriptPeer
         peer = RegScriptPeer(HOST, sc["framing"], sc["by_reg"], T, after=sc.get("after", "drop"))
+        if sc.get("const_payload") is not None:       # every read answer carries the same byte (consecutive answers byte-identical)
+            peer.payload_fn = lambda req, n, b=sc["const_payload"]: bytes([b]) * (2 * req["count"])
     else:
         peer = ScriptedPeer(HOST, sc["framing"], [tuple(s) if isinstance(s, list) else s for s in sc.get("script", [])],
                             T, after=sc.get("after", "drop"))
